@@ -140,7 +140,7 @@ var props = map[string]*propConfig{
 			"scheduling points as in C03; sequentially consistent memory",
 			"sampling, not enumeration",
 		},
-		Probes: []string{"kill:step", "kill:CompareAndSwap @file.go", "kill:fs:writeat", "remap-after-growth"},
+		Probes: []string{"kill:step", "kill:m.mapping.Data[off])).CompareAndSwap", "kill:fs:writeat", "remap-after-growth"},
 	},
 	"C10": {
 		Harness: "h1", Level: "exploration",
